@@ -99,7 +99,7 @@ def _reachable_from_sup_ancestors(cfg):
 
 
 def gen_config(rng: random.Random, n_nodes=None, allow_blocking=True, allow_buffer=True, allow_advance=True,
-               allow_phase_sched=True, shadow_names=True, max_window=3, periods=(2, 4, 8), heavy=True):
+               allow_phase_sched=True, shadow_names=True, max_window=3, periods=(2, 4, 8), heavy=True, tie_rich=False):
     """Seeded random supported graph (DESIGN 3.2)."""
     for _ in range(1000):
         k = n_nodes or rng.choice([2, 3, 3, 4])
@@ -143,6 +143,17 @@ def gen_config(rng: random.Random, n_nodes=None, allow_blocking=True, allow_buff
                               **{"in": b}))
             seen.add((a, b))
         sup = rng.choice(names)
+        if tie_rich:
+            # every delay a multiple of the common period: receive times coincide with step starts and with each other
+            # (FIFO clamps, double ties) far more often than with free grid values
+            P = rng.choice([2, 4])
+            for n in nodes:
+                n["period"] = P * rng.choice([1, 1, 2])
+                n["cdist"] = sorted(set(rng.sample([0, P, P, 2 * P], rng.choice([1, 2]))))
+                n["delay"] = rng.choice([0, P])
+            for c in conns:
+                c["cdist"] = sorted(set(rng.sample([0, P, 2 * P, 3 * P], rng.choice([2, 3]))))
+                c["delay"] = rng.choice([0, P])
         cfg = dict(nodes=nodes, conns=conns, sup=sup)
         if allow_advance:
             for n in nodes:
